@@ -33,7 +33,7 @@ Definition run08 (c : case08) : sx :=
       L [ L [sx_copies r; sx_copies r];                  (* Tree.filtered, Tree.copy(predicate=) *)
           sx_shapes f;                                    (* the source afterwards *)
           sx_shapes ip; sx_nat (length (ids ip));         (* Tree.filter *)
-          L [sx_ids (calls v f); sx_ids (calls v f); sx_ids (calls w f)] ]
+          L [sx_ids (af_calls v f); sx_ids (af_calls v f); sx_ids (ip_calls w f)] ]
   | Some z =>
       let n := Z.to_nat z in
       match find_node n f with
@@ -46,6 +46,6 @@ Definition run08 (c : case08) : sx :=
           L [ L [sx_copies r1; sx_copies r1; sx_copies r0];   (* Node.filtered, Node.copy(predicate=), Node.copy(add_self=False, predicate=) *)
               sx_shapes f;
               sx_shapes ip; sx_nat (length (ids ip));         (* Node.filter *)
-              L [sx_ids (calls v g); sx_ids (calls v g); sx_ids (calls v g); sx_ids (calls w g)] ]
+              L [sx_ids (af_calls v g); sx_ids (af_calls v g); sx_ids (af_calls v g); sx_ids (ip_calls w g)] ]
       end
   end.
